@@ -310,13 +310,14 @@ func runKindCodec(c *core.Ctx) {
 	// outcome of the From == To test (the value may be chosen into a variable first)
 	single, pair := false, false
 	encBad := false
-	for _, call := range callsNamed(enc, "encoding/json.Marshal") {
-		paths, _ := an.PathsTo(enc, call.Block(), 256)
+	for _, o := range an.RegionCalls(enc, nil, "encoding/json.Marshal") {
+		call := o.In.(*ssa.Call)
+		paths, _ := an.PathsTo(enc, o.Block(), 256)
 		for _, p := range paths {
 			if !an.Feasible(p) {
 				continue
 			}
-			v := call.Call.Args[0]
+			v := an.Unwrap(o.Resolve(call.Call.Args[0]))
 			for i := 0; i < 4; i++ {
 				ph, ok := v.(*ssa.Phi)
 				if !ok {
